@@ -560,8 +560,64 @@ const SPECIAL_TEXTS: [&str; 44] = [
     "a b", "a\u{0}b", "\"quoted\"", "a/b:c.d@e", "\u{feff}bom", "xn--caf-dma.example", "*.example.com", ".",
 ];
 
+/// A near miss of a well-known identifier `w`: case variants, padding, one character more or less,
+/// and names colliding with it under common hand-written string hashes.
+pub fn identifier_variant(rng: &mut Rng, w: &str) -> String {
+    let flip = |c: char| if c.is_ascii_lowercase() { c.to_ascii_uppercase() } else { c.to_ascii_lowercase() };
+    match rng.below(12) {
+        0 => w.to_ascii_uppercase(),
+        1 => w.to_ascii_lowercase(),
+        2 => {
+            // capitalised words: Public-Key
+            let mut up = true;
+            w.chars()
+                .map(|c| {
+                    let r = if up { c.to_ascii_uppercase() } else { c };
+                    up = !c.is_ascii_alphanumeric();
+                    r
+                })
+                .collect()
+        }
+        3 => {
+            let k = rng.usize(w.chars().count().max(1));
+            w.chars().enumerate().map(|(i, c)| if i == k { flip(c) } else { c }).collect()
+        }
+        4 => format!(" {}", w),
+        5 => format!("{} ", w),
+        6 => format!("{}\u{0}", w),
+        7 => {
+            let mut t = w.to_string();
+            t.pop();
+            t
+        }
+        8 => format!("{}{}", w, w.chars().last().unwrap_or('x')),
+        _ => {
+            let l = crate::mutate::hash_lookalikes(w);
+            if l.is_empty() {
+                w.to_ascii_uppercase()
+            } else {
+                rng.pick(&l).clone()
+            }
+        }
+    }
+}
+
+const IDENTIFIERS: [&str; 24] = [
+    "public-key", "packed", "none", "hmac-secret", "credProtect", "largeBlobKey", "thirdPartyPayment", "rk", "up", "uv", "id", "name",
+    "displayName", "icon", "type", "alg", "FIDO_2_0", "FIDO_2_1", "FIDO_2_1_PRE", "U2F_V2", "usb", "nfc", "x5c", "sig",
+];
+
 pub fn gen_text(rng: &mut Rng, n: usize) -> V {
     let lits = literals();
+    if rng.chance(1, 12) {
+        // a near miss of a well-known identifier or of a source literal (shorter than n is fine:
+        // every oracle looks at the value actually sent)
+        let w: String = if !lits.texts.is_empty() && rng.chance(1, 3) { rng.pick(&lits.texts).clone() } else { (*rng.pick(&IDENTIFIERS)).to_string() };
+        let t = identifier_variant(rng, &w);
+        if t.len() <= n {
+            return V::text(&t);
+        }
+    }
     if !lits.texts.is_empty() && rng.chance(1, 4) {
         // a harvested literal alone (if it fits), as prefix, as suffix, or in the middle
         let w = rng.pick(&lits.texts);
